@@ -4,6 +4,7 @@
 package wops
 
 import (
+	"bytes"
 	"fmt"
 
 	"github.com/gobwas/ws/wsutil"
@@ -143,7 +144,13 @@ func Alphabet() []Op {
 
 // Feed produces position-tagged payload bytes: byte i of the whole accepted
 // stream is Tag(i).
-type Feed struct{ Pos int }
+type Feed struct {
+	Pos int
+	// Rec, when set, is the writer's destination: the caller's slice of Write / WriteThrough is compared with the
+	// caller's bytes from inside every destination write (and after the call) - a payload shared with a second
+	// writer (a broadcast) must hold the application's bytes at every moment.
+	Rec *xport.Rec
+}
 
 func Tag(i int) byte { return byte(i*7 + i>>8*13 + 1) }
 
@@ -166,6 +173,8 @@ type Result struct {
 	Avail    int
 	Size     int
 	Panic    interface{}
+	// CallerChanged: the caller's slice did not hold the caller's bytes during a destination write / after return.
+	CallerChanged string
 }
 
 // Apply performs op on w. Accepted bytes advance feed. planSeed picks the
@@ -176,10 +185,29 @@ func Apply(w *wsutil.Writer, op Op, feed *Feed, planSeed int64) (r Result) {
 		k = Resolve(w, op.Sel)
 	}
 	r.Op, r.K = op.String(), k
+	watch := func(p []byte) func() {
+		if feed.Rec == nil {
+			return func() {}
+		}
+		orig := append([]byte(nil), p...)
+		feed.Rec.Watch = func() {
+			if r.CallerChanged == "" && !bytes.Equal(p, orig) {
+				r.CallerChanged = "during a destination write"
+			}
+		}
+		return func() {
+			feed.Rec.Watch = nil
+			if r.CallerChanged == "" && !bytes.Equal(p, orig) {
+				r.CallerChanged = "after the call returned"
+			}
+		}
+	}
 	switch op.Kind {
 	case Write:
 		p := feed.Next(k)
+		done := watch(p)
 		n, err := w.Write(p)
+		done()
 		r.N, r.Err = int64(n), err
 	case ReadFrom:
 		p := feed.Next(k)
@@ -199,7 +227,9 @@ func Apply(w *wsutil.Writer, op Op, feed *Feed, planSeed int64) (r Result) {
 		r.N, r.Err = n, err
 	case WriteThrough:
 		p := feed.Next(k)
+		done := watch(p)
 		n, err := w.WriteThrough(p)
+		done()
 		r.N, r.Err = int64(n), err
 	case FlushFragment:
 		r.Err = w.FlushFragment()
